@@ -205,3 +205,9 @@ func RunReplay(name string, h func()) (reproduced bool) {
 	h()
 	return len(Failures) > 0
 }
+
+func Watch(ptr interface{})      {}
+func Op(name string)             {}
+func AssertLockset(label string) {}
+
+func Native() bool { return true }
